@@ -49,6 +49,7 @@ PROBES = [
     "witness-sufficient",
     "witness-refused-past-leaf",
     "witness-of-absent-prefix",
+    "witness-relayed-from-partial-store",
     "older-root-used",
     "asked-first-on-incomplete-store",
 ]
@@ -312,6 +313,31 @@ class World(C12World):
             if got != contents.get(k):
                 self.viol("witness-wrong-answer", f"witness for prefix {p.hex()} answers get({k.hex()}) = {got!r}, the trie holds {contents.get(k)!r}")
         st.probe("witness-sufficient" if any(m.startswith(p) for m in contents) else "witness-of-absent-prefix")
+        if cmd.get("relay") and wit:
+            # the light client hands on what it holds: from its partial store (exactly the
+            # witness) it enumerates its nodes and builds witnesses for the same and for
+            # shorter prefixes; a third client fed one of those still answers every key under p
+            part = {keccak(n): n for n in wit}
+            try:
+                held = set(get_trie_nodes(part, root))
+            except Exception as e:
+                self.viol("trie-nodes", f"get_trie_nodes on a store holding exactly the witness for {p.hex()} raised {e!r}")
+            if held != set(wit):
+                self.viol("trie-nodes", f"get_trie_nodes on a store holding exactly the witness for {p.hex()} returns {len(held)} distinct nodes, the store holds {len(set(wit))}, all reachable from the root")
+            for q in sorted({p, p[: len(p) // 2], b""}, key=len):
+                try:
+                    wit2 = get_witness_for_key_prefix(part, root, q)
+                except Exception as e:
+                    self.viol("witness-insufficient", f"from a store holding exactly the witness for {p.hex()}, get_witness_for_key_prefix({q.hex()}) raised {e!r}")
+                third = BinaryTrie({keccak(n): n for n in wit2}, root)
+                for k in sorted(set(keys)):
+                    try:
+                        got = third.get(k)
+                    except Exception as e:
+                        self.viol("witness-insufficient", f"a witness for {q.hex()} relayed from a store holding the witness for {p.hex()} cannot answer get({k.hex()}): {e!r}")
+                    if got != contents.get(k):
+                        self.viol("witness-wrong-answer", f"a relayed witness answers get({k.hex()}) = {got!r}, the trie holds {contents.get(k)!r}")
+            st.probe("witness-relayed-from-partial-store")
         return f"witness:{len(wit)}"
 
     def finish(self):
@@ -380,6 +406,8 @@ def generate(rng):
             c = {"op": "trie_nodes"}
         else:
             c = {"op": "witness", "k": hx(k[: rng.randint(0, len(k))] if rng.random() < 0.7 else k + bytes([rng.randrange(256)]))}
+            if rng.random() < 0.4:
+                c["relay"] = 1
         if rng.random() < 0.25:
             c["root"] = rng.randrange(1000)
         if rng.random() < p_pre:
